@@ -45,6 +45,7 @@ class Formula:
         self.let_override = {}     # local id -> V: a `let` whose initialiser is classified by the caller (a running extremum)
         self.general_branch = False   # under a zero test (exact or with a tolerance) read the branch for the non-zero case
         self.bool_env = {}         # local id of a bool parameter -> the value to read the code for
+        self.method_bool = {}      # argument-less bool method -> the value to read the code for (`is_binary`)
 
     # ---- atoms
     def is_elem_atom(self, a):
@@ -276,6 +277,14 @@ class Formula:
             return V("struct", out)
         if k == "If" and peel_refs(e.get("c") or {}).get("k") == "Path" and peel_refs(e["c"]).get("local") in self.bool_env and e.get("else") is not None:
             return self.expr(c, e["then"] if self.bool_env[peel_refs(e["c"])["local"]] else e["else"], env)
+        if k == "If" and e.get("else") is not None and self.method_bool:
+            cnd = peel_refs(e.get("c") or {})
+            neg = False
+            while cnd.get("k") == "Unary" and cnd["op"] == "!":
+                cnd, neg = peel_refs(cnd["e"]), not neg
+            if cnd.get("k") == "MethodCall" and cnd["name"] in self.method_bool and not cnd["args"]:
+                val = self.method_bool[cnd["name"]] != neg
+                return self.expr(c, e["then"] if val else e["else"], env)
         if k == "If" and self.general_branch and e.get("else") is not None:
             from .zeroskip import zero_test_kind
             zk = zero_test_kind(c, e["c"])
@@ -327,7 +336,14 @@ class Formula:
             nm = e.get("name") or e.get("field") or "?"
             return V("elem", self.atom("field:%s" % nm, elem=True))
         if k == "Index":
+            ix = peel_refs(e["i"])
+            if ix.get("k") == "Tup" and all(self.const_of(c, z) is not None for z in ix["es"]):
+                base = peel_refs(e["e"])
+                nm = base.get("name") if base.get("k") in ("Field", "Path") else "a"
+                return V("scal", self.atom("%s[%s]" % (nm, ",".join(str(self.const_of(c, z)) for z in ix["es"]))))
             raise Unsupported("indexing")
+        if k == "Tup":
+            return V("tuple", [self.expr(c, z, env) for z in e["es"]])
         raise Unsupported("expression %s" % k)
 
     def block_env(self, c, e, env):
@@ -345,6 +361,16 @@ class Formula:
                             raise Unsupported("let pattern")
                         env[bs[0]["local"]] = self.expr(c, x, env)
                     continue
+                if p_.get("k") == "Tuple":
+                    tv = self.expr(c, s0["init"], env)
+                    if tv.kind == "tuple" and len(tv.r) == len(p_["pats"]):
+                        for q, x in zip(p_["pats"], tv.r):
+                            bs = list(pat_bindings(q))
+                            if len(bs) != 1:
+                                raise Unsupported("let pattern")
+                            env[bs[0]["local"]] = x
+                        continue
+                    raise Unsupported("let pattern")
                 bs = list(pat_bindings(p_))
                 if len(bs) != 1:
                     raise Unsupported("let pattern")
